@@ -108,6 +108,7 @@ func makeBody(rng *rand.Rand, nonce, model string, n int, asJSON bool) []byte {
 	if asJSON {
 		head := fmt.Sprintf(`{"model":%q,"nonce":%q,"pad":"`, model, nonce)
 		tail := `"}`
+		head, tail = wrapWS(rng, head, tail)
 		if n < len(head)+len(tail) {
 			n = len(head) + len(tail)
 		}
@@ -119,9 +120,25 @@ func makeBody(rng *rand.Rand, nonce, model string, n int, asJSON bool) []byte {
 	return b
 }
 
+// wrapWS: a third of the JSON bodies carry the insignificant whitespace real clients send
+// around the document (trailing newline of json.Encoder / curl @file, CRLF, leading blank
+// line); byte-for-byte means these bytes too.
+func wrapWS(rng *rand.Rand, head, tail string) (string, string) {
+	switch rng.Intn(9) {
+	case 0:
+		return head, tail + "\n"
+	case 1:
+		return head, tail + "\r\n"
+	case 2:
+		return "\n  " + head, tail + "\n\n"
+	}
+	return head, tail
+}
+
 func anthropicBody(rng *rand.Rand, nonce, model string, n int) []byte {
 	head := fmt.Sprintf(`{"model":%q,"max_tokens":16,"messages":[{"role":"user","content":"nonce=%s `, model, nonce)
 	tail := `"}]}`
+	head, tail = wrapWS(rng, head, tail)
 	padN := n - len(head) - len(tail)
 	if padN < 0 {
 		padN = 0
